@@ -93,7 +93,8 @@ namespace detail
 		GLM_FUNC_QUALIFIER static vec<4, float, Q> call(vec<4, float, Q> const& v1, vec<4, float, Q> const& v2)
 		{
 			vec<4, float, Q> result;
-			result.data = _mm_min_ps(v1.data, v2.data);
+			// min(x, y) = (y < x) ? y : x: MINPS returns its second operand when the operands are unordered or both zero
+			result.data = _mm_min_ps(v2.data, v1.data);
 			return result;
 		}
 	};
@@ -126,7 +127,8 @@ namespace detail
 		GLM_FUNC_QUALIFIER static vec<4, float, Q> call(vec<4, float, Q> const& v1, vec<4, float, Q> const& v2)
 		{
 			vec<4, float, Q> result;
-			result.data = _mm_max_ps(v1.data, v2.data);
+			// max(x, y) = (x < y) ? y : x: MAXPS returns its second operand when the operands are unordered or both zero
+			result.data = _mm_max_ps(v2.data, v1.data);
 			return result;
 		}
 	};
@@ -159,7 +161,8 @@ namespace detail
 		GLM_FUNC_QUALIFIER static vec<4, float, Q> call(vec<4, float, Q> const& x, vec<4, float, Q> const& minVal, vec<4, float, Q> const& maxVal)
 		{
 			vec<4, float, Q> result;
-			result.data = _mm_min_ps(_mm_max_ps(x.data, minVal.data), maxVal.data);
+			// min(max(x, minVal), maxVal) with the operand order of the scalar min and max (NaN, signed zeros)
+			result.data = _mm_min_ps(maxVal.data, _mm_max_ps(minVal.data, x.data));
 			return result;
 		}
 	};
